@@ -196,7 +196,7 @@ pub fn tape_checks(ctx: &Ctx) -> Vec<(&'static str, Box<CheckFn<'_>>)> {
 pub fn run(ctx: &Ctx) -> (Level, Report) {
 	let mut report = Report::default();
 	for (name, check) in tape_checks(ctx) {
-		let out = ctx.random(name, 100_000, 20, 1024, &*check);
+		let out = ctx.random(name, 300_000, 10, 1024, &*check);
 		report.absorb(name, out);
 	}
 	// deterministic large cases: one chunk past the preallocation window for every primitive width
